@@ -130,3 +130,13 @@ Theorem C03_is_child_spec :
   forall ps i, is_child ps i = true <-> exists p, parent_of ps i = Some p.
 Proof. exact is_child_spec. Qed.
 Print Assumptions C03_is_child_spec.
+
+Theorem C03_all_children_nodup :
+  forall ps p, WFmap ps -> NoDup (all_children ps p).
+Proof. exact all_children_nodup. Qed.
+Print Assumptions C03_all_children_nodup.
+
+Theorem C03_all_children_strictly_ascending :
+  forall ps p, WFmap ps -> StronglySorted lt (all_children ps p).
+Proof. exact all_children_strictly_ascending. Qed.
+Print Assumptions C03_all_children_strictly_ascending.
